@@ -323,7 +323,7 @@ def oracle(case, R):
         compare(SimpleNamespace(d=s1.d[n:], v=s1.d[:n], a=s1.v[:n]), "SolveExp1", nrmA)
 
 
-CKAP = 100.0
+CKAP = 1000.0
 CTOL = 1000.0    # calibrated: worst normalised error on the unchanged tree ~10 (see evidence)
 
 
